@@ -6,6 +6,9 @@ use std::cmp;
 use std::io;
 use std::io::{Error, ErrorKind};
 use tokio::io::{AsyncReadExt, AsyncWriteExt};
+#[cfg(memcrs_verif)]
+use simseam::net::TcpStream;
+#[cfg(not(memcrs_verif))]
 use tokio::net::TcpStream;
 use tokio_util::codec::Decoder;
 
